@@ -122,4 +122,34 @@ with open(dst, 'w') as o:
     for k in sorted(disp):
         o.write('  {"%s", {%s}},\n' % (k, ','.join('"%s"' % c for c in disp[k])))
     o.write('};\n')
+# ---- de-excitation routines <Nuclide>low(levelkeV): tabulated entry levels, a Fortran dispatcher and the port's function table
+# (used by the cascade-level differential of C02: the routines are called directly on both sides, without the primary leptons)
+import os
+low = {}
+for name, body in subs.items():
+    if not name.endswith('low'): continue
+    levs = set()
+    for l in body:
+        for m in re.finditer(r'if\(levelkev\.eq\.\s*(\d+)\)\s*go\s*to', l, re.I): levs.add(int(m.group(1)))
+    if levs: low[name] = sorted(levs)
+if len(sys.argv) > 4:
+    glue, inc, repo = sys.argv[3], sys.argv[4], sys.argv[5]
+    with open(glue, 'w') as o:
+        o.write('      subroutine reflow(ichn,nch,levelkev,ifound)\n      integer ichn(16)\n      character chn*16\n      chn=\' \'\n')
+        o.write('      do k=1,min(nch,16)\n         chn(k:k)=char(ichn(k))\n      enddo\n      ifound=1\n')
+        for k in sorted(low):
+            o.write("      if(chn.eq.'%s') then\n         call %s(levelkev)\n         return\n      endif\n" % (k, k))
+        o.write('      ifound=0\n      return\n      end\n')
+    hdrs = {f[:-2].lower(): f[:-2] for f in os.listdir(os.path.join(repo, 'bxdecay0')) if f.endswith('low.h')}
+    with open(inc, 'w') as o:
+        o.write('// generated by ref/mkdict.py -- do not edit\n')
+        for k in sorted(low):
+            if k in hdrs: o.write('#include <bxdecay0/%s.h>\n' % hdrs[k])
+        o.write('typedef void (*port_low_fn)(bxdecay0::i_random &, bxdecay0::event &, const int);\n')
+        o.write('struct RefLow { std::vector<int> levels; port_low_fn fn; };\n// fn == nullptr: the port has no such routine\n')
+        o.write('static const std::map<std::string, RefLow> REF_LOW = {\n')
+        for k in sorted(low):
+            o.write('  {"%s", {{%s}, %s}},\n' % (k, ','.join(map(str, low[k])), ('&bxdecay0::' + hdrs[k]) if k in hdrs else 'nullptr'))
+        o.write('};\n')
+    print('low routines', len(low), 'ported', sum(1 for k in low if k in hdrs))
 print('dbd isotopes', len(dbd)); print('subs', len(subs), 'with thresholds', sum(1 for k in dic if dic[k]), 'dispatch', len(disp))
